@@ -105,6 +105,11 @@ def before_dispatch(header, heter):
     pack = [p.get('name') for p in kids(fn) if p.get('kind') == 'ParmVarDecl']
     if len(pack) != 1:
         raise Untranslatable('mixinBeforeDispatch: expected one parameter pack')
+    ptype = [p.get('type', {}).get('qualType', '') for p in kids(fn) if p.get('kind') == 'ParmVarDecl'][0]
+    if not ptype.endswith('...'):
+        raise Untranslatable('mixinBeforeDispatch: the parameter is not a pack')
+    # a by-reference capture of the pack has the pack's type with one more & (reference to reference in the dump)
+    ref_capture = ptype[:-3].replace(' ', '') + '&...'
     lam = one_lambda(body, 'mixinBeforeDispatch')
     params, lbody, fields = lambda_parts(lam)
     if len(params) != 1:
@@ -113,7 +118,7 @@ def before_dispatch(header, heter):
     cbcalls = calls_to(lbody, cb)
     if len(cbcalls) != 1:
         raise Untranslatable('mixinBeforeDispatch lambda: the filter must be called exactly once (found %d calls)' % len(cbcalls))
-    by_ref = bool(fields) and all(f.rstrip().endswith('&...') for f in fields) and passes_pack(cbcalls[0], pack[0], heter)
+    by_ref = len(fields) == 1 and fields[0].replace(' ', '') == ref_capture and passes_pack(cbcalls[0], pack[0], heter)
     stmts = kids(lbody)
     # an optional leading statement that is just the call, then returns / ifs
     if stmts and is_call(strip(stmts[0])) and callee_name(strip(stmts[0])) == cb:
